@@ -577,3 +577,10 @@ def run(ctx):
     ctx.guarded(r, XC.check_branches, "grad_slice")
     ctx.guarded(r, XC.check_call_helpers, "grad_slice")
     ctx.guarded(r, XC.check_simple_builders, "grad_slice")
+    from .. import a64sem as XS
+
+    r = ctx.rule("R6d", "aarch64 gradient add / sub / neg / mul / div / sqrt / square / recip: value lane and the three derivative lanes follow the chain rule (symbolic lanes)", 9)
+    ctx.guarded(r, XS.check_lane_semantics, "grad_slice")
+    r = ctx.rule("R6e", "aarch64 gradient assembler: 128-bit arrangements only; load_imm drops no bit of the constant", 23 + 3)
+    ctx.guarded(r, XC.check_full_width, "grad_slice")
+    ctx.guarded(r, XC.check_load_imm, "grad_slice")
